@@ -153,6 +153,9 @@ type v08IdxEntry struct {
 // filter; MaxInt32 if there is none.
 func VerifBranchPrecedencePrefix() {
 	entries := []*v08IdxEntry{
+		// the member node itself (case1 is a presence container: an intent may hold the case
+		// through it alone)
+		{tag: "self", path: []string{"choices", "case1"}, in: true},
 		{tag: "log", path: []string{"choices", "case1", "log"}, in: true},
 		{tag: "elem", path: []string{"choices", "case1", "case-elem", "elem"}, in: true},
 		{tag: "other", path: []string{"choices", "case2", "log"}},
